@@ -28,15 +28,19 @@ def negate_spec(spec):
     return s
 
 
-def make_item(seed, k):
+def make_item(seed, k, variant=None):
     rng = random.Random(f"c12/{seed}/{k}")
     names = [n for n in universe.opt_names()]
     opt = names[k % len(names)]
-    cfg, klass = universe.make_config(rng, opt, perturbed=rng.random() < 0.2, stop=False,
+    cfg, klass = universe.make_config(rng, opt, perturbed=rng.random() < 0.3, stop=False,
                                       max_cycles=rng.choice([2, 3, 5, 8]))
+    if variant is not None:
+        opt, cfg = variant[0], dict(variant[1], max_cycles=rng.choice([2, 3, 5]), fitness_error=None)
     kind = rng.choice(["continuous", "continuous", "multiobjective", "mixed", "discrete", "permutation"])
     spec = universe.make_spec(rng, kind=kind, minmax="max")
-    return {"k": k, "opt": opt, "cfg": cfg, "spec": spec}
+    # a third of the pairs run both directions on ONE instance (max f, then min -f): equivalent for a library whose
+    # runs do not depend on instance history, and reaches direction state cached on the instance
+    return {"k": k, "opt": opt, "cfg": cfg, "spec": spec, "reuse": rng.random() < 0.34}
 
 
 def fitness_readers(case):
@@ -70,14 +74,23 @@ def work(item, opts):
     case_min = {"opt": item["opt"], "cfg": item["cfg"], "spec": negate_spec(item["spec"])}
     out = {"k": item["k"], "opt": item["opt"], "viol": []}
     res = []
-    for c in (case_max, case_min):
-        opt, _ = make_optimizer(c)
+    shared = None
+    order = (case_max, case_min) if item["k"] % 2 == 0 else (case_min, case_max)
+    for c in order:
+        if item.get("reuse"):
+            if shared is None:
+                shared, _ = make_optimizer(c)
+            opt = shared
+        else:
+            opt, _ = make_optimizer(c)
         rid = f"c12-{os.getpid()}-{item['k']}-{c['spec']['minmax']}"
         tasks.register_run(rid, c["spec"])
         try:
             res.append(optimize_plain(opt, tasks.build_task(c["spec"], rid), mode="serial"))
         finally:
             tasks.unregister_run(rid)
+    if order[0] is case_min:
+        res.reverse()
     (sa, ra), (sb, rb) = res
     out["status"] = [sa, sb]
     if "timeout" in (sa, sb):
@@ -127,6 +140,8 @@ def check(prop, tier, seed):
     rep = Report(prop, tier, seed)
     per_opt = 3 if tier == "quick" else 30
     items = [make_item(seed, k) for k in range(84 * per_opt)]
+    for rep_ in range(1 if tier == "quick" else 6):
+        items += [make_item(seed, 100000 + 1000 * rep_ + j, variant=v) for j, v in enumerate(universe.all_optional_variants())]
     res = runner.run_parallel("pvmon.props.c12", "work", items, {})
     opts_seen = set()
     agents = 0
